@@ -3,6 +3,28 @@
 import glob, json, os
 # what had to be added to the checks before the change was caught (empty: caught as first run)
 STRENGTHENED = {
+ 'C01-frag_marker_nothing': 'stray children of <ul> (empty id-carrying elements, named anchors, images without alt, stray text and links)',
+ 'C02-footnote_newline_measure': 'control characters and line feeds in link targets of the C02 documents',
+ 'C03-css_dedup_rules': 'rules repeated verbatim at the end of a sheet (A, B, A) in C18 and C19 (a CSS matter: caught there, not by C03)',
+ 'C04-frag_marker_settles_word': 'ids on inline elements and named anchors in the middle of words',
+ 'C04-prefixed_block_helper': 'blockquote under a custom decorator whose prefix is two columns but three or four bytes',
+ 'C06-fragment_on_empty_first_row': 'ids on row groups, cell-less first rows (also modelled in the stacked rule skeleton)',
+ 'C06-wrapper_empty_check': 'cells whose words sit in <pre> with a final line break',
+ 'C08-list_stray_children': 'stray children of <ul> in the C08 documents (words among them become links)',
+ 'C08-block_link_pushdown': 'links wrapped around two or more blocks',
+ 'C09-pre_ws_override': 'CSS white-space declarations on <pre> elements',
+ 'C12-flush_drops_indent_only_line': 'white-space-only lines made of tabs',
+ 'C12-lazy_pre_cont_tag': 'words split between plain text and an inline element',
+ 'C13-css_last_child_counts_text_nodes': 'structural CSS rules (:nth-child / :first-child / :last-child with colour or generated content) under white-space and comment rewrites',
+ 'C13-text_estimate_splits_on_space': 'prefixed blocks of very short words; TooNarrow differences under a pure white-space substitution have a signature of their own',
+ 'C15-pad_to_span_width': 'emoji / variation-selector sequences in the strikeout documents',
+ 'C16-code_markers_in_pre': 'affix runs inside <pre>',
+ 'C17-hex_alpha_colours': 'soup templates: hostile tokens (escapes producing non-ASCII, long hex escapes) as the value of a supported property',
+ 'C17-url_token': 'quoted url( ".." ) forms with white space and brackets in unknown properties and at-rules (the seeded change was re-expressed against the repaired tokenizer)',
+ 'C18-inline_style_trailing_text': 'style attribute spellings with trailing white space, space before the semicolon, trailing junk, doubled semicolons, upper case',
+ 'C19-empty_ol_early_return': 'lists without items that carry a class / id, followed by more text',
+ 'C20-shared_element_id_lookup': 'anchors with a name attribute equal to an id of the vocabulary',
+ 'C20-selector_match_depth_cap': 'chains of 100-600 wrappers between the matching ancestor and the subject',
  'C01-link_empty_recursive': 'deep nests (3*10^5 levels of b/i/em, with and without text) inside a link',
  'C02-pre_tab_flushes_pending_space': 'inline elements with CSS white-space: pre / pre-wrap whose content starts with a tab, spaces or an ideographic space (use_doc_css)',
  'C03-text_node_moved_out_of_dom': 'a kept DOM converted to a render tree twice (second conversion rendered and checked), in C03 and C10',
